@@ -1020,7 +1020,13 @@ impl<'a, 'b> GeneratorState<'a> {
                             None => {
                                 return Err(self
                                     .compiler_state
-                                    .syntax_error("Break statement outside loop", pos))
+                                    .syntax_error("Continue statement outside loop", pos))
+                            }
+                            // A switch outside of any loop has no continue label
+                            Some((cl, _, _)) if cl.is_empty() => {
+                                return Err(self
+                                    .compiler_state
+                                    .syntax_error("Continue statement outside loop", pos))
                             }
                             Some((cl, _, _)) => cl.clone(),
                         }
